@@ -40,7 +40,7 @@ PROPS = {
 
 PROPS['C20'] = dict(
     title='entry points agree',
-    units=['wrap'],
+    units=['wrap', 'depth'],
     shims=['A-path/fs', 'A-str', 'A-hashmap'],
     design='DESIGN.md 3/C20',
     technique='contract-based deductive verification (Verus) of the verbatim wrapper bodies; callees carry an assumed contract attached to their real signature and keyed by parameter name',
